@@ -32,6 +32,7 @@ Definition is_dc (f : family) : bool := match f with FDC => true | _ => false en
 (* keys: 0 = the RA link ("Receivers" / "Potential Electrodes"), 1 = the RB link, 2 = "Waveform", 3 = "Tx ID property",
    >= 10 scalar survey parameters (unit, channels, loop radius, offsets ...) and, for direct current, free metadata *)
 Definition KA := 0. Definition KB := 1. Definition KW := 2. Definition KT := 3.
+Definition KC := 30.   (* "Coordinate Reference System": a nested block {0: Current, 1: Previous} *)
 Definition key_of (r : role) : nat := match r with RA => KA | RB => KB end.
 Definition other (r : role) : role := match r with RA => RB | RB => RA end.
 
@@ -192,6 +193,33 @@ Definition em_wave (s : st) (e : ent) (z : Z) : st :=
       em_edit s2 (refresh s2 e) KW (VRef wl)
   end.
 
+(* TEM timing_mark setter: when a waveform discretization exists (key 1 of the nested dict) the nested dict is updated in
+   place, else a new dict {"Timing mark": z} replaces the entry; then edit_em_metadata({"Waveform": value}) *)
+Definition em_timing (s : st) (e : ent) (z : Z) : st :=
+  let '(l, s1) := em_md s e in
+  match dget KW (hget l (heap s1)) with
+  | Some (VRef wl) =>
+      match dget 1 (hget wl (wheap s1)) with
+      | Some _ =>
+          let s2 := set_wheap s1 (hset wl (dset 0 z (hget wl (wheap s1))) (wheap s1)) in
+          em_edit s2 (refresh s2 e) KW (VRef wl)
+      | None =>
+          let wl' := next s1 in
+          let s2 := bump (set_wheap s1 (hset wl' [(0, z)] (wheap s1))) in
+          em_edit s2 (refresh s2 e) KW (VRef wl')
+      end
+  | _ =>
+      let wl' := next s1 in
+      let s2 := bump (set_wheap s1 (hset wl' [(0, z)] (wheap s1))) in
+      em_edit s2 (refresh s2 e) KW (VRef wl')
+  end.
+
+(* edit_em_metadata({key: {sub: z}}) : a fresh nested dict as value *)
+Definition em_nest (s : st) (e : ent) (k sub : nat) (z : Z) : st :=
+  let wl := next s in
+  let s1 := bump (set_wheap s (hset wl [(sub, z)] (wheap s))) in
+  em_edit s1 (refresh s1 e) k (VRef wl).
+
 (* ------------------------------------------------------------------ direct current electrodes *)
 (* Entity.metadata setter: update the existing dict in place, else adopt the argument object; store *)
 Definition dc_assign (s : st) (e : ent) (l : N) : st :=
@@ -240,16 +268,43 @@ Definition dc_edit (s : st) (e : ent) (k : nat) (z : Z) : res st :=
       Ok (dc_assign s2 (refresh s2 e) l)
   end.
 
+(* electrode.coordinate_reference_system = {...}: metadata = {"Coordinate Reference System": {"Current": new, "Previous": the
+   current one or the library default}} through the electrode metadata setter *)
+Definition dc_crs (s : st) (e : ent) (znew zdefault : Z) : res st :=
+  let '(m, s1) := dc_md s e in
+  match m with
+  | None => Err EBadOp
+  | Some l0 =>
+      let prev := match dget KC (hget l0 (heap s1)) with
+                  | Some (VRef cl) => match dget 0 (hget cl (wheap s1)) with Some z => z | None => zdefault end
+                  | _ => zdefault
+                  end in
+      let cl := next s1 in
+      let s2 := bump (set_wheap s1 (hset cl [(0, znew); (1, prev)] (wheap s1))) in
+      let l := next s2 in
+      let s3 := bump (set_heap s2 (hset l [(KC, VRef cl)] (heap s2))) in
+      Ok (dc_assign s3 (refresh s3 e) l)
+  end.
+
 (* ------------------------------------------------------------------ partner getters (observations and copy) *)
 Definition partner (s : st) (e : ent) : option ent * st :=
   if is_dc (fam e) then
-    let '(m, s1) := dc_md s e in
-    match m with
-    | None => (None, s1)
-    | Some l => match dget (key_of (other (rol e))) (hget l (heap s1)) with
-                | Some (VU u) => (get_ent (wsp e) u (ents s1), s1)
-                | _ => (None, s1)
-                end
+    (* the electrode getters keep the resolved partner; the link setters do not refresh it *)
+    match cache e with
+    | Some u => (get_ent (wsp e) u (ents s), s)
+    | None =>
+        let '(m, s1) := dc_md s e in
+        match m with
+        | None => (None, s1)
+        | Some l => match dget (key_of (other (rol e))) (hget l (heap s1)) with
+                    | Some (VU u) =>
+                        match get_ent (wsp e) u (ents s1) with
+                        | Some d => (Some d, set_ents s1 (put_ent (with_cache (refresh s1 e) (Some u)) (ents s1)))
+                        | None => (None, s1)
+                        end
+                    | _ => (None, s1)
+                    end
+        end
     end
   else
     let '(l, s1) := em_md s e in
@@ -351,7 +406,11 @@ Inductive op :=
 | OLink (a b : nat)                      (* a.<partner> = b *)
 | OEdit (a : nat) (k : nat) (z : Z)      (* a scalar survey parameter through entity a (DC: a free metadata key) *)
 | OWave (a : nat) (z : Z)                (* a.waveform = ... (TEM) *)
+| OTiming (a : nat) (z : Z)              (* a.timing_mark = ... (TEM) *)
+| ONest (a : nat) (k sub : nat) (z : Z)  (* a.edit_em_metadata({k: {sub: z}}) *)
+| OCrs (a : nat) (znew zdefault : Z)     (* electrode.coordinate_reference_system = {...} *)
 | OUnit (a : nat) (z : Z)                (* a.unit = ... *)
+| OFail (a : nat)                        (* a setter whose validation reads a class attribute that does not exist: raises first *)
 | OReopen
 | OCopy (a : nat) (tw : bool) (mask : option (list bool)).
 
@@ -383,6 +442,21 @@ Definition step (s : st) (o : op) : res st :=
       | Some e => if is_tem (fam e) then Ok (em_wave s e z) else Err EBadOp
       | None => Err ENoEntity
       end
+  | OTiming a z =>
+      match at_pos s a with
+      | Some e => if is_tem (fam e) then Ok (em_timing s e z) else Err EBadOp
+      | None => Err ENoEntity
+      end
+  | ONest a k sub z =>
+      match at_pos s a with
+      | Some e => if is_dc (fam e) then Err EBadOp else Ok (em_nest s e k sub z)
+      | None => Err ENoEntity
+      end
+  | OCrs a zn zd =>
+      match at_pos s a with
+      | Some e => if is_dc (fam e) then dc_crs s e zn zd else Err EBadOp
+      | None => Err ENoEntity
+      end
   | OUnit a z =>
       match at_pos s a with
       | Some e => match fam e with
@@ -393,6 +467,7 @@ Definition step (s : st) (o : op) : res st :=
                   end
       | None => Err ENoEntity
       end
+  | OFail a => match at_pos s a with Some _ => Err EAttribute | None => Err ENoEntity end
   | OReopen =>
       Ok (set_ents s (map (fun e => with_cache (with_md e None) None) (ents s)))
   | OCopy a tw mask =>
@@ -415,7 +490,9 @@ Definition s0 : st := {| ents := []; heap := []; wheap := []; file := []; next :
 Record view := { v_live : option fdict; v_stored : option fdict; v_partner : option N; v_loc : option N }.
 
 Definition observe1 (s : st) (e : ent) : view * st :=
-  let '(p, s1) := partner s e in
+  let '(p, s0) := partner s e in
+  (* ... then the metadata getter (the electrode partner getter may have answered from its cache) *)
+  let s1 := if is_dc (fam e) then snd (dc_md s0 (refresh s0 e)) else s0 in
   let e1 := refresh s1 e in
   ({| v_live := option_map (read s1) (md e1);
       v_stored := fget (wsp e) (uid e) (file s1);
